@@ -272,6 +272,13 @@ class Ctx:
             elif o == "ne":
                 self.neqs.append(d)
             return
+        if op == "iter_empty" and v == 0:
+            # a non-empty chunks_exact(k) iteration over all of `base`: len(base) >= k
+            it = t.args[0]
+            src = it.args[0] if is_t(it) and it.op == "iter" else None
+            if is_t(src) and src.op == "chunks" and src.args[2] == "chunks_exact" and is_t(src.args[1]) and src.args[1].op == "int":
+                self.side.append(Lin(src.args[1].args[0]).add(self.lin(mk("len", src.args[0])), -1))
+            return
         if op == "range_ok" and v == 1:
             lo, hi, n = (self.lin(x) for x in t.args)
             self.side.append(lo.add(hi, -1))
@@ -407,4 +414,9 @@ def window(t):
         t = t.args[0]
     if is_t(t) and t.op == "slice":
         return t.args[0], t.args[1], t.args[2]
+    if is_t(t) and t.op == "index" and is_t(t.args[0]) and t.args[0].op == "chunks" and t.args[0].args[2] == "chunks_exact" and \
+            is_t(t.args[0].args[1]) and t.args[0].args[1].op == "int" and is_t(t.args[1]) and t.args[1].op == "int":
+        # chunk number i (a constant) of base.chunks_exact(k): bytes [k*i, k*i + k)
+        k, i = t.args[0].args[1].args[0], t.args[1].args[0]
+        return t.args[0].args[0], mk("int", k * i, "usize"), mk("int", k * i + k, "usize")
     return None
